@@ -82,6 +82,8 @@ func applyServiceExtends(ctx context.Context, name string, services map[string]a
 	var (
 		base      any
 		processor PostProcessor
+		// services the base is looked up in: those of the referenced file, if any
+		baseServices = services
 	)
 
 	// a service is identified by the file it is declared in and its name
@@ -95,7 +97,7 @@ func applyServiceExtends(ctx context.Context, name string, services map[string]a
 		if !ok {
 			return nil, fmt.Errorf("services.%s.extends.file must be a string", name)
 		}
-		services, processor, err = getExtendsBaseFromFile(ctx, name, ref, filename, refFilename, opts, tracker)
+		baseServices, processor, err = getExtendsBaseFromFile(ctx, name, ref, filename, refFilename, opts, tracker)
 		post = append(post, processor)
 		if err != nil {
 			return nil, err
@@ -110,7 +112,7 @@ func applyServiceExtends(ctx context.Context, name string, services map[string]a
 	}
 
 	// recursively apply `extends`
-	base, err = applyServiceExtends(ctx, ref, services, opts, tracker, post...)
+	base, err = applyServiceExtends(ctx, ref, baseServices, opts, tracker, post...)
 	if err != nil {
 		return nil, err
 	}
